@@ -25,6 +25,7 @@ class ClassInfo(object):
       for key, (fname, fty) in self.dictlike.items():
         self.fields[fname] = parse_type(fty)
         self.fields['has_' + fname] = parse_type('bool')
+    self.abstracts_list = d.get('abstracts_list', None)   # extern class standing for a python list seen only through ghost set fields: [] allocates one with those sets empty
     self.listlike = d.get('listlike', None)   # python list used as a fixed record: field names by position
     self.truthy_expr = d.get('truthy_expr', None)  # spec expression for bool(self) of an extern container-like class
     self.value_key = d.get('value_key', None)   # fields that define ==/hash: instances are dictionary keys by value
